@@ -165,6 +165,31 @@ def parseDQ : String → Read.DoubleQuotes
 
 def splitComma (s : String) : List String := (s.splitOn ",").filter (· ≠ "")
 
+/-- model text, model read-back and the round-trip verdict for one tree under a table and flags -/
+def judgeTerm (mode : String) (dq : Read.DoubleQuotes) (ops : Ops.Table) (t : Term) (impl : String) : String × String :=
+  let varsS := field impl "vars=[" "]"
+  let fltsS := field impl "flts=[" "]"
+  let names : List (List Char) := (splitComma varsS).map String.toList
+  let flts : List (UInt64 × List Char) := (splitComma fltsS).filterMap fun e =>
+    match e.splitOn ":" with
+    | [b, tx] =>
+      match hexOfChars b.toList, dec tx with
+      | some n, some tx => some (UInt64.ofNat n, tx)
+      | _, _ => none
+    | _ => none
+  let env : Write.Env := ⟨cfg, fun b => (flts.lookup b).getD ['?'], fun v => names.getD v ['_', '?']⟩
+  let tc := t.canon
+  let text :=
+    match mode with
+    | "writeq" => Write.writeq env ops tc
+    | "canonical" => Write.writeCanonical env ops tc
+    | _ => Write.writeQuoted env ops tc
+  let rb := termWire (Read.readTerm cfg ops dq (text ++ [' ', '.']))
+  let model := s!"vars=[{varsS}] flts=[{fltsS}] text={enc text} rb={rb}"
+  let want := tc.wire
+  let got := field impl " rb=" ""
+  (model, if got == want then "ok" else s!"FAIL the written term does not read back: want {want}")
+
 def termsHandler : Handler := fun payload impl =>
   let parts := splitOps payload
   match parts with
@@ -182,28 +207,112 @@ def termsHandler : Handler := fun payload impl =>
       | _, _ => st) (Ops.defaultTable, none)
     match term with
     | none => ("BAD-PAYLOAD", "-")
-    | some t =>
-      let varsS := field impl "vars=[" "]"
-      let fltsS := field impl "flts=[" "]"
-      let names : List (List Char) := (splitComma varsS).map String.toList
-      let flts : List (UInt64 × List Char) := (splitComma fltsS).filterMap fun e =>
-        match e.splitOn ":" with
-        | [b, tx] =>
-          match hexOfChars b.toList, dec tx with
-          | some n, some tx => some (UInt64.ofNat n, tx)
-          | _, _ => none
-        | _ => none
-      let env : Write.Env := ⟨cfg, fun b => (flts.lookup b).getD ['?'], fun v => names.getD v ['_', '?']⟩
-      let tc := t.canon
-      let text :=
-        match mode with
-        | "writeq" => Write.writeq env ops tc
-        | "canonical" => Write.writeCanonical env ops tc
-        | _ => Write.writeQuoted env ops tc
-      let rb := termWire (Read.readTerm cfg ops dq (text ++ [' ', '.']))
-      let model := s!"vars=[{varsS}] flts=[{fltsS}] text={enc text} rb={rb}"
-      let want := tc.wire
-      let got := field impl " rb=" ""
-      (model, if got == want then "ok" else s!"FAIL the written term does not read back: want {want}")
+    | some t => judgeTerm mode dq ops t impl
+
+/-! ## c06.shared: terms built with sharing (the same Go value reached several times through
+    variable bindings).  Sharing is invisible in the abstract term: the model substitutes the
+    bindings and judges the plain tree. -/
+
+mutual
+  def substTerm (m : List (Nat × Term)) : Term → Term
+    | .var v => (m.lookup v).getD (.var v)
+    | .app f as => .app f (substArgs m as)
+    | t => t
+  def substArgs (m : List (Nat × Term)) : Args → Args
+    | .nil => .nil
+    | .cons t ts => .cons (substTerm m t) (substArgs m ts)
+end
+
+/-- what a `let` binds its variable to, as a plain tree -/
+def letValue (n : Nat) (kind : String) (args : List Term) : Option Term :=
+  match kind, args with
+  | "eq", [t] | "glist", [t] | "gpartial", [t] | "gchars", [t] | "gcodes", [t] | "findall", [t] => some t
+  | "codes", [.atom a] => some (Read.codeList a.toList)
+  | "chars", [.atom a] => some (Read.charList a.toList)
+  | "append", [t1, t2] => some (Term.list t1.spine.1 t2)
+  | "univ", [l] =>
+    match l.spine.1 with
+    | .atom f :: as => some (Term.mk f as)
+    | _ => none
+  | "length", [.int k] => some (Term.list ((List.range k.toNat).map fun i => .var (n * 100 + i)))
+  | _, _ => none
+
+mutual
+  def shiftVars (k : Nat) : Term → Term
+    | .var v => .var (k + v)
+    | .app f as => .app f (shiftVarsArgs k as)
+    | t => t
+  def shiftVarsArgs (k : Nat) : Args → Args
+    | .nil => .nil
+    | .cons t ts => .cons (shiftVars k t) (shiftVarsArgs k ts)
+end
+
+/-- texts up to the names of variables: the token sequence with variable tokens numbered by first occurrence -/
+def tokensModVars (text : List Char) : List (String × List Char) :=
+  let toks := (tokens cfg (text.length + 1) (Lexer.ofList text)).1
+  (toks.foldl (fun (st : List (String × List Char) × List (List Char)) t =>
+    if t.kind == .variable then
+      match st.2.idxOf? t.val with
+      | some i => (st.1 ++ [("variable", (toString i).toList)], st.2)
+      | none => (st.1 ++ [("variable", (toString st.2.length).toList)], st.2 ++ [t.val])
+    else (st.1 ++ [(t.kind.name, t.val)], st.2)) ([], [])).1
+
+def sharedHandler : Handler := fun payload impl =>
+  let parts := splitOps payload
+  match parts with
+  | [] => ("BAD-PAYLOAD", "-")
+  | hdr :: rest =>
+    let hw := words hdr
+    let mode := hw.getD 1 ""
+    let dq := parseDQ (hw.getD 2 "")
+    let st := rest.foldl (fun (st : Ops.Table × List (Nat × Term) × Option Term × Bool) o =>
+      let (ops, m, term, ok) := st
+      let (w, r) := headWord o
+      match w with
+      | "op" =>
+        match parseTerms r with
+        | some [p, s, n] => ((Ops.op ops p s n).1, m, term, ok)
+        | _ => (ops, m, term, false)
+      | "let" =>
+        let (ns, r1) := headWord r
+        let (kind, r2) := headWord r1
+        if kind == "parse" then
+          match natOfChars ns.toList, dec r2 with
+          | some n, some src =>
+            match Read.readTerm cfg ops dq (src ++ [' ', '.']) with
+            | .ok v => (ops, m ++ [(n, shiftVars (n * 100) v)], term, ok)
+            | .error _ => (ops, m, term, false)
+          | _, _ => (ops, m, term, false)
+        else
+        match natOfChars ns.toList, parseTerms r2 with
+        | some n, some args =>
+          match letValue n kind (args.map (substTerm m)) with
+          | some v => (ops, m ++ [(n, v)], term, ok)
+          | none => (ops, m, term, false)
+        | _, _ => (ops, m, term, false)
+      | "term" =>
+        match parseTerms r with
+        | some [t] => (ops, m, some (substTerm m t), ok)
+        | _ => (ops, m, term, false)
+      | _ => (ops, m, term, false)) (Ops.defaultTable, [], none, true)
+    match st with
+    | (ops, _, some t, true) =>
+      let (m, v) := judgeTerm mode dq ops t impl
+      -- the second write: the text written for the term read back is the first text up to variable names
+      let textS := field impl " text=" " again="
+      let againS := field impl " again=" " w2="
+      let w2S := field impl " w2=" " rb="
+      let m2 := (m.replace " rb=" (" again=same w2=" ++ w2S ++ " rb="))
+      let v2 :=
+        if v != "ok" then v
+        else if againS != "same" then "FAIL the same term written twice by one query gives two different texts"
+        else
+          match dec textS, dec w2S with
+          | some t1, some t2 =>
+            if tokensModVars t1 == tokensModVars t2 then "ok"
+            else "FAIL writing the term that was read back gives a different text"
+          | _, _ => "FAIL unparsable implementation line"
+      (m2, v2)
+    | _ => ("BAD-PAYLOAD", "-")
 
 end PrologVerif.Driver.C06
